@@ -364,7 +364,9 @@ def check(ctx):
     rat = evaluate(repo, atd).ret()
     ok = (rat is not None and is_call(rat, "jax.tree_util.tree_map") and rat[2][0][0] == "lambda"
           and is_call(rat[2][0][2], "jax.numpy.expand_dims")
-          and rat[2][0][2][2][1] == c(1))
+          and rat[2][0][2][2][1] == c(1)
+          and rat[2][0][2][2][0] == n(rat[2][0][1][0].lstrip("*"))
+          and rat[2][1] == n(atd.params()[0]))
     ctx.ob("C08.R4", atd, "the time axis is inserted at axis 1 with length 1", ok,
            detail=short(rat or ()))
     se = method(repo, eng, "_start_epoch")
